@@ -6,6 +6,7 @@ import (
 	"os"
 	"path/filepath"
 
+	gengo "k8s.io/gengo/v2"
 	"k8s.io/gengo/v2/generator"
 )
 
@@ -49,4 +50,8 @@ func c15Dup(s *generator.SnippetWriter, w io.Writer) *generator.SnippetWriter { 
 func c15Append(s *generator.SnippetWriter, r io.Reader) error                 { return s.Append(r) }
 func c15Merge(s *generator.SnippetWriter, r io.Reader, o *generator.SnippetWriter) error {
 	return s.Merge(r, o)
+}
+
+func c09boilerplate(path, buildTag, genBy string) ([]byte, error) {
+	return gengo.GoBoilerplate(path, buildTag, genBy)
 }
